@@ -78,9 +78,70 @@ Definition obs_json (o : iobs) : option json :=
   | _ => None
   end.
 
+(* own values of the root may also be ALIASES whose value the case itself determines without any evaluation:
+   `${k}` of an own literal key k that no merged import defines (so it has no inherited part), and
+   `${imports.x...}` (the observed stand-alone value of x at that path).  They are replaced by that value. *)
+Definition import_keys (c : case) : list string :=
+  flat_map (fun im : string * bool =>
+              if snd im then match alookup (fst im) (c_imports c) with
+                             | Some (IObs (Some (XObj _ _ m)) _ _) => map fst m
+                             | _ => []
+                             end
+              else []) (ed_imports (c_def c)).
+
+Fixpoint names_of (p : path) : option (list string) :=
+  match p with
+  | [] => Some []
+  | AName k :: r | AKey k :: r => option_map (cons k) (names_of r)
+  | AIdx _ :: _ => None
+  end.
+
+Fixpoint jget' (p : list string) (j : json) : option json :=
+  match p with
+  | [] => Some j
+  | k :: r => match j with JObj m => match alookup k m with Some v => jget' r v | None => None end | _ => None end
+  end.
+
+Definition resolve_alias (c : case) (e : expr) : expr :=
+  match e with
+  | ESym [AName k] =>
+      if existsb (String.eqb k) (import_keys c) || String.eqb k "imports" || String.eqb k "context" then e
+      else match alookup k (ed_values (c_def c)) with
+           | Some lit => match lit_json wire_fuel lit with Some _ => lit | None => e end
+           | None => e
+           end
+  | _ => e
+  end.
+
+Fixpoint json_to_expr (fuel : nat) (j : json) : expr :=
+  match fuel with
+  | O => EMissing
+  | S f => match j with
+           | JNull => ENull | JBool b => EBool b | JNum t => ENum t | JStr s => EStr s
+           | JArr l => EArr (map (json_to_expr f) l)
+           | JObj m => EObj (map (fun kv => (fst kv, json_to_expr f (snd kv))) m)
+           end
+  end.
+
+Definition resolve_import_ref (c : case) (e : expr) : expr :=
+  match e with
+  | ESym (AName "imports" :: AName x :: rest) =>
+      match alookup x (c_imports c), names_of rest with
+      | Some o, Some ks => match obs_json o with
+                           | Some j => match jget' ks j with Some v => json_to_expr (S (jdepth v)) v | None => e end
+                           | None => e
+                           end
+      | _, _ => e
+      end
+  | _ => e
+  end.
+
+Definition own_resolved (c : case) : list (string * expr) :=
+  map (fun kv => (fst kv, resolve_import_ref c (resolve_alias c (snd kv)))) (ed_values (c_def c)).
+
 (* the fold the property demands, computed from the implementation's own observations *)
 Definition spec_value (c : case) : option json :=
-  match lit_json wire_fuel (EObj (ed_values (c_def c))) with
+  match lit_json wire_fuel (EObj (own_resolved c)) with
   | None => None
   | Some own =>
       let folded :=
@@ -183,6 +244,7 @@ Definition mismatch (c : case) : bool :=
 Definition env_literal (d : envdef) : bool :=
   match lit_json wire_fuel (EObj (ed_values d)) with Some _ => true | None => false end.
 Definition has_nonliteral_env (c : case) : bool :=
+  negb (env_literal (c_def c)) ||
   existsb (fun ne => match snd ne with LoadOk d => negb (env_literal d) | _ => false end) (w_envs (c_world c)).
 
 Definition known (c : case) : bool := (kf_oso c || has_nonliteral_env c) && negb (mismatch c).
